@@ -15,7 +15,7 @@ RULE = ("every inductive estimator (all but the nonparametric ones, Kauri includ
 ASSUMPTIONS = ["BLAS blocking may change the last bits of a product: probabilities are compared to 1e-9 absolute"]
 EVAL_COUNTER = "comparisons"
 REQUIRED = {"quick": dict({"comparisons": 2500, "single_row_comparisons": 600, "fit_final_forward_compared": 300,
-                           "train_predict_equals_labels": 350, "big_batches": 45, "kauri_fits_far_from_origin": 8, "big_rows_compared": 1200},
+                           "train_predict_equals_labels": 350, "big_batches": 35, "kauri_fits_far_from_origin": 8, "big_rows_compared": 900},
                           **{"fit:" + e: 15 for e in gen.ESTIMATORS if e not in gen.NONPARAMETRIC}),
             "thorough": {"comparisons": 40000}}
 SHARD_TIMEOUT = {"quick": 1200, "thorough": 7000}
